@@ -5,13 +5,11 @@ use ip::{Any, Prefix, PrefixSet};
 use irrc::{Connection, IrrClient, Query, ResponseItem};
 
 use rpsl::{
-    attr::{AttributeType, RpslAttribute},
     expr::{
         eval::{Evaluate, Evaluator, Resolver},
         MpFilterExpr,
     },
     names::{AsSet, AutNum, FilterSet, RouteSet},
-    obj::{RpslObject, RpslObjectClass},
     primitive::PeerAs,
 };
 
@@ -112,6 +110,31 @@ impl<'a> Evaluator<'a> for RpslEvaluator {
     }
 }
 
+/// The filter expression of a `filter-set` object, taken from the object text: its `mp-filter:`
+/// attribute or, failing that, the classic `filter:` attribute (whose syntax is a subset).
+///
+/// The object as a whole is not validated: attributes that used to be mandatory (`changed:`) have
+/// disappeared from the registries, and an object without them still has a filter.
+fn filter_attribute(object: &str) -> Option<String> {
+    let mut attrs: Vec<(String, String)> = Vec::new();
+    for line in object.lines() {
+        if let Some(continued) = line.strip_prefix([' ', '\t', '+']) {
+            if let Some((_, value)) = attrs.last_mut() {
+                value.push(' ');
+                value.push_str(continued.trim());
+            }
+        } else if let Some((name, value)) = line.split_once(':') {
+            attrs.push((name.trim().to_ascii_lowercase(), value.trim().to_owned()));
+        }
+    }
+    ["mp-filter", "filter"].iter().find_map(|wanted| {
+        attrs
+            .iter()
+            .find(|(name, _)| name == wanted)
+            .map(|(_, value)| value.clone())
+    })
+}
+
 impl Resolver<'_, FilterSet, MpFilterExpr> for RpslEvaluator {
     type IError = Error;
 
@@ -128,28 +151,13 @@ impl Resolver<'_, FilterSet, MpFilterExpr> for RpslEvaluator {
                 .map_err(Error::from)
                 .and_then(|pipeline| {
                     pipeline
-                        .responses()
+                        .responses::<String>()
                         .find_map(|resp| {
                             this.collect_result(resp.map_err(Error::from).and_then(|item| {
-                                let obj = item.into_content();
-                                if let RpslObject::FilterSet(ref filter_set_obj) = obj {
-                                    filter_set_obj
-                                        .attrs()
-                                        .into_iter()
-                                        .find_map(|attr| {
-                                            if let RpslAttribute::MpFilter(expr) = attr {
-                                                // TODO: shouldn't need to clone here either!
-                                                Some(expr.clone())
-                                            } else {
-                                                None
-                                            }
-                                        })
-                                        .ok_or_else(|| {
-                                            Error::FindAttribute(AttributeType::MpFilter, obj)
-                                        })
-                                } else {
-                                    Err(Error::RpslObjectClass(obj))
-                                }
+                                let text = item.into_content();
+                                filter_attribute(&text)
+                                    .ok_or_else(|| Error::FindFilterAttribute(filter_set.to_string()))
+                                    .and_then(|expr| Ok(expr.parse()?))
                             }))
                             .transpose()
                         })
